@@ -25,6 +25,12 @@ Qed.
 Lemma nth_map_in {A B} (f : A -> B) d d' : forall l n, n < length l -> nth n (map f l) d = f (nth n l d').
 Proof. induction l; destruct n; simpl; intros; try lia; auto. apply IHl; lia. Qed.
 
+Lemma nth_firstn_lt {A} (d : A) : forall N l j, j < N -> nth j (firstn N l) d = nth j l d.
+Proof. induction N; intros l j H; [lia|]. destruct l, j; simpl; auto. apply IHN. lia. Qed.
+
+Lemma nth_skipn_add {A} (d : A) : forall k l j, nth j (skipn k l) d = nth (k + j) l d.
+Proof. induction k; intros; [reflexivity|]. destruct l; simpl; [destruct j; reflexivity|]. apply IHk. Qed.
+
 Lemma map_const_repeat {A B} (c : B) : forall l : list A, map (fun _ => c) l = repeat c (length l).
 Proof. induction l; simpl; congruence. Qed.
 
